@@ -209,6 +209,8 @@ func (op *CanonicalOrderedPartition) expandValue(neighbours [][]int, currentBest
 		}
 		ints.Sort(op.value[startValue:])
 		if len(currentBest) > 0 && ints.Compare(op.value, currentBest[:len(op.value)]) == -1 && ints.Compare(op.value, firstLeaf[:len(op.value)]) != 0 {
+			//The value now covers the positions up to and including j so deage must know to remove these entries again.
+			op.singletonPrefixLength = j + 1
 			return true
 		}
 	}
